@@ -37,6 +37,9 @@ M = [
  ('C13-c', 'C13', 'backends/libwayland_debug_output/runner.py', "            stderr=self.stderr_fd,\n", "            stderr=self.stderr_fd,\n            stdout=self.stderr_fd,\n", 1),
  ('C18-a', 'C18', 'main.py', "        input_file = open(file_path, errors='replace')", "        input_file = open(file_path)", 1),
  ('C18-b', 'C18', 'backends/libwayland_debug_output/parse.py', '            except RuntimeError as e:\n                self.out.unprocessed(str(e))', '            except ValueError as e:\n                self.out.unprocessed(str(e))', 1),
+ ('C09-a', 'C09', 'backends/gdb_plugin/extract.py', "                for elem_index in range(size // int_type.sizeof):\n                    elem = value['data'].cast(int_type.pointer())[elem_index]", "                for i in range(size // int_type.sizeof):\n                    elem = value['data'].cast(int_type.pointer())[i]", 1),
+ ('C09-b', 'C09', 'backends/gdb_plugin/extract.py', "            elif c == 'h':\n                args.append(wl.Arg.Fd(int(value)))", "            elif c == 'h':\n                args.append(wl.Arg.Fd(int(closure_args[i]['i'])))", 1),
+ ('C09-c', 'C09', 'backends/gdb_plugin/extract.py', "        if c in type_codes:", "        if c in type_codes or c == '?':", 1),
  ('C16-a', 'C16', 'frontends/tui/controller.py', 'if delta > 1.0:', 'if delta >= 1.0:', 1),
  ('C16-b', 'C16', 'frontends/tui/controller.py', "                ')')\n            self.last_shown_timestamp = None", "                ')')", 1),
  ('C06-a', 'C06', 'frontends/tui/controller.py', 'if self.current_connection is None or connection == self.current_connection:', 'if True:', 1),
